@@ -1245,7 +1245,6 @@ status_t Message :: Unflatten(DataUnflattener & unflat)
    }
 
    Clear(true);
-   MRETURN_ON_ERROR(_entries.EnsureSize(numEntries, true));
 
    this->what = tempWhat;
 
